@@ -136,6 +136,11 @@ func gen(seed uint64, tier string) Scenario {
 	for i := 0; i < nr; i++ {
 		sc.Readers = append(sc.Readers, Peer{Transport: []string{"udp", "tcp"}[r.Intn(2)], Max: pickMax(r)})
 	}
+	// a UDP-multicast reader (at most one: it needs the loopback address); hash-derived so that no
+	// other choice moves. The multicast writer has its own size checks and writes its own reports.
+	if x := core.HS(seed, "c18.mcast", "", 0); len(sc.Readers) > 0 && x%100 < 12 {
+		sc.Readers[int((x>>8)%uint64(len(sc.Readers)))].Transport = "mcast"
+	}
 	if r.Bool(0.8) {
 		sc.Pub = &Peer{Transport: []string{"udp", "tcp"}[r.Intn(2)], Max: pickMax(r)}
 		if plain := r.Bool(0.3); plain && sc.Secure && sc.Pub.Transport == "tcp" {
